@@ -15,12 +15,6 @@ import WS.Model.Http
 namespace WS.Model.Handshake
 open WS WS.PyH2 WS.H2 WS.Model.Http
 
-/-- reads and writes on one transport, in order. -/
-inductive IoEv where
-  | write (bs : Bytes)
-  | recv (n : Nat)            -- size asked of the transport
-  deriving Repr, DecidableEq, Inhabited
-
 /-- `_pack_hostname` -/
 def packHostname (host : Str) : Str :=
   if hasChar ':' host then '[' :: host ++ [']'] else host
